@@ -27,7 +27,14 @@ Lemma tie_C16 :
      = ["conn.intHandlers.dispatch"; "go conn.bgHandlers.dispatch"; "conn.fgHandlers.dispatch"]%string
   /\ filter (fun p => String.eqb (fst p) "Conn.dispatch" || String.eqb (fst p) "hSet.dispatch") go_stmts_client
      = [("Conn.dispatch", "conn.bgHandlers.dispatch"); ("hSet.dispatch", "func")]%string
-  /\ flow_client_Conn_HandleBG = ["conn.bgHandlers.add"; "return"]%string.
+  /\ flow_client_Conn_HandleBG = ["conn.bgHandlers.add"; "return"]%string
+  (* conditions: Recover is deferred unconditionally; LogPanic acts exactly when recover() returned
+     a value; every handler of the snapshot is spawned and waited for, unconditionally *)
+  /\ conds_client_hNode_Handle = []
+  /\ conds_client_Conn_LogPanic = ["err != nil"]%string
+  /\ conds_client_hSet_dispatch = []
+  /\ conds_client_hSet_getHandlers = ["!ok"; "for hn != nil"]%string
+  /\ conds_client_Conn_dispatch = [].
 Proof. repeat split; vm_compute; reflexivity. Qed.
 
 (* Safety.  The connection stays up (can_close = false).  For EVERY schedule — any subset of the
